@@ -83,7 +83,7 @@ def check_state(h, v, acc, record=True):
                         if type(r) is not AnsiStr:
                             bad.append(('slice-type', case, 'AnsiStr slice returned %s' % type(r).__name__))
                             continue
-                        r = r._s
+                        r = model.content(r)
                 except Exception as ex:  # noqa
                     bad.append(('slice-raises', case, '%s[%r:%r] raised %s: %s' % (form, i, j, type(ex).__name__, ex)))
                     continue
